@@ -315,11 +315,11 @@ impl Word {
                                     
                                     let cur_length = sy.segments.len() - pos;
                                     let maybe_new_length = self.alias_apply_length(mods, alias.output.position)?;
-                                    let seg = {
-                                        let seg = sy.segments.get_mut(*pos).unwrap();
-                                        self.alias_apply_mods(seg, mods, alias.output.position)?;
-                                        *seg
-                                    };
+                                    // the payload goes to the whole segment, i.e. to every copy of a long one
+                                    for copy in sy.segments.iter_mut().skip(*pos) {
+                                        self.alias_apply_mods(copy, mods, alias.output.position)?;
+                                    }
+                                    let seg = sy.segments[*pos];
                                     if let Some(new_length) = maybe_new_length {
                                         match new_length.cmp(&cur_length) {
                                             std::cmp::Ordering::Equal => {},
